@@ -30,13 +30,18 @@ LEVEL = 'exploration'
 TECHNIQUE = ('bounded-exhaustive enumeration of sparse fill patterns (every shape <=4x4) and property-based testing '
              '(Hypothesis) of larger matrices and of the file-level operations, against an in-memory numpy/scipy oracle '
              'and the structural invariants of compressed sparse matrices')
-RULE = ('cases = (a) every fill pattern of every shape <=3x3 (quick; plus a deterministic sample of 2000 patterns of the shapes with a '
-        'side of 4) or every pattern of every shape <=4x4 (thorough), each transposed serially with/without value array, for index '
-        'sub-ranges of the minor axis, through csc_to_csr_on_disk / transpose_by_way_of_disk and with 1-5 parallel workers; '
-        '(b) generated matrices up to 30x30 (empty slices, single entry, dense, none, >100 entries) with budgets 1e-9..1; '
-        '(c) generated file-level operations on small h5ad/HDF5 files. '
+RULE = ('cases = (a) enumerated fill patterns: quick = every pattern of every shape <=3x3 (682) plus a deterministic sample of 2000 of the '
+        '74272 patterns of the shapes with a side of 4; thorough = all 74954 patterns of every shape <=4x4. Each pattern is transposed '
+        'serially with and without value array (complete), for index sub-ranges of the minor axis (all of them with/without values for '
+        '<=3x3; three rotating ones per pattern for the shapes with a side of 4), through csc_to_csr_on_disk and transpose_by_way_of_disk, '
+        'and with parallel workers (quick: one worker count per <=3x3 pattern; thorough: 1-5 workers x with/without values for every <=3x3 '
+        'pattern, one configuration for every 16th larger pattern); '
+        '(b) generated matrices up to 30x30 (empty slices, single entry, dense, none, >100 entries, stored zeros) with budgets 1e-9..1, '
+        'all four entry points, sub-ranges, 1-5 workers; '
+        '(c) generated file-level operations on small h5ad/HDF5 files (pivot, shuffle, subset, stacking, layer->X, HDF5 copy) and the '
+        'in-memory pointer arithmetic of sparse_utils (merge_csr, load_csr/csc/csr_chunk). '
         'non-trivial = >=2 stored entries AND the expected result differs from the input arrays (an identity copy would be wrong) '
-        '[for the HDF5 copy: >=1 chunked dataset copied in >=2 hyperslabs]; distinct = distinct spec hash')
+        '[HDF5 copy: >=1 chunked dataset copied in >=2 hyperslabs]; distinct = distinct spec hash')
 ASSUMPTIONS = ['inputs are canonical compressed matrices (sorted, duplicate-free indices) as scipy/anndata write them; every dimension >= 1',
                'row / column selections are non-empty and duplicate-free; shuffle orders are permutations of all rows',
                'subset_csc_h5ad_columns is documented to return the chosen columns in ascending order; the oracle sorts them',
@@ -64,7 +69,8 @@ def budget(tier):
 
 
 def strategy(tier):
-    return st.one_of(g.transposition_cases(), g.fileop_cases())
+    return st.one_of(g.transposition_cases(), g.transposition_cases(), g.transposition_cases(),
+                     g.fileop_cases(), g.fileop_cases(), g.fileop_cases(), g.sparse_util_cases())
 
 
 # ------------------------------------------------------------------ trigger regions
@@ -281,6 +287,8 @@ def sample_view(spec):
         v['n_variants'] = len(vs)
         v['first_variants'] = vs[:3]
         return v
+    if spec.get('kind') == 'S':
+        return spec
     out = {k: v for k, v in spec.items() if k not in ('src', 'sources', 'tree')}
     if 'src' in spec:
         f = spec['src']
@@ -298,6 +306,8 @@ def sample_view(spec):
 def check(spec):
     if spec['kind'] == 'T':
         return check_transposition(spec)
+    if spec['kind'] == 'S':
+        return check_sparse_utils(spec)
     return check_fileop(spec)
 
 
@@ -774,3 +784,63 @@ def check_fileop(spec):
                                            for e in spec['tree']):
                 classes.add('F_h5copy_multi_dimensional_chunked')
     return Case(nontrivial, sorted(classes), info={'file_operations': 1})
+
+
+# ------------------------------------------------------------------ in-memory pointer arithmetic (utils/sparse_utils.py)
+def check_sparse_utils(spec):
+    import scipy.sparse as sp
+    from cell_type_mapper.utils import sparse_utils as su
+    op = spec['op']
+    x = np.array(spec['x'], dtype=np.dtype(spec['dtype']))
+    nr, nc = x.shape
+    ctx = {'op': op, 'shape': [nr, nc]}
+    classes = {'S_' + op}
+    nnz = int((x != 0).sum())
+    if op == 'merge_csr':
+        bounds = [0] + list(spec['cuts']) + [nr]
+        pieces = [sp.csr_matrix(x[a:b]) for a, b in zip(bounds[:-1], bounds[1:])]
+        try:
+            with quiet():
+                data, indices, indptr = su.merge_csr(data_list=[p.data for p in pieces],
+                                                     indices_list=[p.indices for p in pieces],
+                                                     indptr_list=[p.indptr for p in pieces])
+        except Exception as e:
+            raise Violation('raised', dict(ctx, cuts=spec['cuts'], error=_err(e)))
+        prob = g.structure_problem(indptr, indices, data, nr, nc)
+        if prob is not None:
+            raise Violation(prob[0], dict(ctx, cuts=spec['cuts'], **prob[1]))
+        got = g.densify(indptr, indices, data, nr, nc)
+        if not np.array_equal(got, x.astype(got.dtype)):
+            raise Violation('matrix_equal', dict(ctx, cuts=spec['cuts'], got=got.tolist(), want=x.tolist()))
+        classes.add(f'S_merge_{len(pieces)}_pieces')
+        if any(p.nnz == 0 for p in pieces) and nnz:
+            classes.add('S_merge_piece_without_entry')
+        nontrivial = len(pieces) >= 2 and sum(1 for p in pieces if p.nnz) >= 2
+    else:
+        r0, r1 = spec['rows']
+        c0, c1 = spec['cols']
+        ctx.update(rows=[r0, r1], cols=[c0, c1])
+        try:
+            with quiet():
+                if op == 'load_csr_chunk':
+                    m = sp.csr_matrix(x)
+                    got = su.load_csr_chunk(row_spec=(r0, r1), col_spec=(c0, c1), data=m.data, indices=m.indices, indptr=m.indptr)
+                    want = x[r0:r1, c0:c1]
+                elif op == 'load_csr':
+                    m = sp.csr_matrix(x)
+                    got = su.load_csr(row_spec=(r0, r1), n_cols=nc, data=m.data, indices=m.indices, indptr=m.indptr)
+                    want = x[r0:r1, :]
+                else:
+                    m = sp.csc_matrix(x)
+                    got = su.load_csc(col_spec=(c0, c1), n_rows=nr, data=m.data, indices=m.indices, indptr=m.indptr)
+                    want = x[:, c0:c1]
+        except Exception as e:
+            raise Violation('raised', dict(ctx, error=_err(e)))
+        got = np.asarray(got)
+        if got.shape != want.shape or not np.array_equal(got, want):
+            raise Violation('matrix_equal', dict(ctx, got=got.tolist(), want=want.tolist(), x=x.tolist()))
+        if int((want != 0).sum()) == 0 and nnz:
+            classes.add('S_block_without_entry')
+        nontrivial = int((want != 0).sum()) >= 2 and want.size < x.size
+    classes.add('S_nnz_0' if nnz == 0 else 'S_nnz_ge_1')
+    return Case(nontrivial, sorted(classes), info={'in_memory_operations': 1})
